@@ -20,8 +20,12 @@ class C04(Prop):
     level = "fault_enumeration"
     title = "A query's answer does not depend on what was evaluated before it"
     campaigns = {
-        "quick": [("faultfree", 4000, 40), ("faults", 8000, 60)],
-        "thorough": [("faultfree", 60000, 400), ("faults", 200000, 900)],
+        "quick": [("faultfree", 1600, 40), ("faults", 4000, 60),
+                  ("known:disjunction+for_all", 320, 30), ("known:disjunction+flatten", 320, 30),
+                  ("known:disjunction+nested_query", 320, 30), ("known:disjunction_over_different_variables", 320, 30)],
+        "thorough": [("faultfree", 60000, 600), ("faults", 200000, 1500),
+                     ("known:disjunction+for_all", 4000, 300), ("known:disjunction+flatten", 4000, 300),
+                     ("known:disjunction+nested_query", 8000, 300), ("known:disjunction_over_different_variables", 20000, 300)],
     }
     chunk = 40
     rule = ("seeded pools of 1-3 `an` queries (+ `the` variants) over shared variables with explicit domains; "
@@ -46,8 +50,8 @@ class C04(Prop):
     def gen(self, rng, tier, campaign):
         cfg = G.gen_config(rng, tier)
         cfg["kinds"] = ["list", "list", "tuple", "gen", "iterobj"]
-        world = G.gen_world(rng, cfg)
-        pool = G.gen_pool(rng, cfg, world)
+        region = campaign.split(":", 1)[1] if campaign.startswith("known:") else None
+        world, pool = G.gen_world_and_pool(rng, cfg, want_region=region)
         # `the` variants share the variables of the pool
         an_ids = [q["id"] for q in pool["queries"]]
         if campaign == "faults" and rng.random() < 0.4:
